@@ -15,6 +15,16 @@ pub struct Program {
     link: Link,
 }
 
+#[cfg(feature = "verif")]
+impl Program {
+    pub fn verif_data_pos(&self) -> Address {
+        self.link.verif_data_pos()
+    }
+    pub fn verif_len(&self) -> usize {
+        self.link.len()
+    }
+}
+
 impl Program {
     pub fn error(&mut self, error: Error) {
         Arc::make_mut(&mut self.errors).push(error.in_line_number(self.line_number));
